@@ -933,6 +933,10 @@ class CombinedMultiDict(ImmutableMultiDictMixin[K, V], MultiDict[K, V]):  # type
     def listvalues(self) -> cabc.Iterable[list[V]]:
         return (x[1] for x in self.lists())
 
+    def deepcopy(self, memo: t.Any = None) -> te.Self:
+        """Return a deep copy of this object."""
+        return self.__class__(deepcopy(self.dicts, memo))
+
     def copy(self) -> MultiDict[K, V]:  # type: ignore[override]
         """Return a shallow mutable copy of this object.
 
